@@ -26,6 +26,10 @@ typedef struct VsTrace {
 void vs_begin(const int* choices, int nChoices, VsTrace* trace, long long tickMicros, long long horizonSteps);
 void vs_end(void);
 long long vs_now_us(void);
+/** Advance the virtual clock (work tick driven by the harness). Only effective when called by a managed thread. */
+void vs_advance_us(long long us);
+/** Cost of one clock query (default 1 us). */
+void vs_set_query_us(long long us);
 int vs_active(void);
 extern int (*vs_atomic_filter)(const void*);
 #ifdef __cplusplus
